@@ -55,6 +55,7 @@ class SVMRegressor(BaseRegressor):
         input_data: NumberArray,
         output_data: NumberArray,
     ) -> None:
+        self.algo = []
         for _output_data in output_data.T:
             self.algo.append(
                 SVR(
